@@ -76,8 +76,11 @@ def run(prop, tier_, cfg, sample=None, jobs=12, bind_budget=False):
             chunk = cs[b0:b0 + B]
             for bname, feat in FEATS:
                 calls = []
-                for c in chunk:
+                for qi, c in enumerate(chunk):
                     lib, ker = op_to_calls(c["op"], join_path(c["path"]))
+                    # every third case goes through the C ABI (pathrs_inroot_resolve / _resolve_nofollow / _open / _readlink)
+                    if qi % 3 == 2 and not lib.get("nosym"):     # (the C ABI has no resolver flags)
+                        lib = dict(lib, api="c")
                     calls.append(lib)
                     if bname == "kernel":
                         calls.append(ker)
